@@ -199,7 +199,7 @@ PROPS["C01"] = dict(
         technique="Coq proof: three-tier lookup = priority rule over a declarative pattern semantics (tier characterisation + prefix/first-node soundness + matcher soundness/completeness); extracted model vs implementation differential check"),
     n=dict(quick=3000, thorough=40000),
     consts=["any-methods", "global-vars", "any-match"],
-    theorems=["C01_selection", "C01_sound", "C01_complete", "C01_cached"],
+    theorems=["C01_selection", "C01_sound", "C01_complete", "C01_cached", "C01_text_link"],
     rule="case = table of 1..10 routes (static paths and patterns from an AST generator: literal segments over a small shared pool incl. a.b / v1.0, {v}, "
          "{v:re} with 12 regex kinds, global variables, literal prefix/suffix inside a segment, 0..2 nested optional tails), any subset of the 9 methods, "
          "optional StrictLastSlash / cache; 12 Router.Match probes: instantiations of the table's own patterns (85% valid values), single-edit mutations, a few "
